@@ -422,3 +422,175 @@ Proof.
   unfold events. f_equal. destruct t; reflexivity.
 Qed.
 End FactsA.
+
+(* ---- distinct_until_changed / distinct / find / skip_last ------------------ *)
+Section FactsMore.
+Context {A K : Type}.
+
+Definition pure_cmp (eqk : K -> K -> bool) : K -> K -> res bool := fun a b => Ok (eqk a b).
+
+(* keep an element iff its key differs from the key of the previously KEPT
+   element (the code compares with current_key, updated only on emission) *)
+Fixpoint duc_list (key : A -> K) (eqk : K -> K -> bool) (cur : option K) (l : list (nat * A)) : list (nat * A) :=
+  match l with
+  | [] => []
+  | (k, x) :: t =>
+      match cur with
+      | Some c => if eqk c (key x) then duc_list key eqk cur t
+                  else (k, x) :: duc_list key eqk (Some (key x)) t
+      | None => (k, x) :: duc_list key eqk (Some (key x)) t
+      end
+  end.
+
+Lemma duc_from (key : A -> K) (eqk : K -> K -> bool) (xs : list A) t cur k :
+  exec_from (op_distinct_until_changed (pure key) (pure_cmp eqk)) cur k (events xs t)
+  = nexts (duc_list key eqk cur (indexed k xs)) ++ tterm (k + length xs) t.
+Proof.
+  revert cur k; induction xs as [|x r IH]; intros cur k.
+  - term_case t.
+  - step_cons. unfold pure, pure_cmp. destruct cur as [c|]; cbn -[exec_from].
+    + destruct (eqk c (key x)); cbn -[exec_from]; rewrite IH; now rewrite <- ?plus_n_Sm.
+    + rewrite IH. now rewrite <- ?plus_n_Sm.
+Qed.
+
+Theorem distinct_until_changed_spec (key : A -> K) (eqk : K -> K -> bool) (xs : list A) t :
+  exec (op_distinct_until_changed (pure key) (pure_cmp eqk)) (events xs t)
+  = nexts (duc_list key eqk None (indexed 1 xs)) ++ tterm (S (length xs)) t.
+Proof. unfold exec. cbn -[exec_from]. apply duc_from. Qed.
+
+(* distinct: keep an element iff its key equals no key kept so far (comparer
+   called as comparer(stored, new), first match wins) *)
+Fixpoint distinct_list (key : A -> K) (eqk : K -> K -> bool) (seen : list K) (l : list (nat * A)) : list (nat * A) :=
+  match l with
+  | [] => []
+  | (k, x) :: t =>
+      if existsb (fun s => eqk s (key x)) seen then distinct_list key eqk seen t
+      else (k, x) :: distinct_list key eqk (seen ++ [key x]) t
+  end.
+
+Lemma hs_find_pure (eqk : K -> K -> bool) (seen : list K) (item : K) :
+  hs_find (pure_cmp eqk) seen item = Ok (existsb (fun s => eqk s item) seen).
+Proof.
+  induction seen as [|a t IH]; [reflexivity|]. cbn [hs_find existsb]. unfold pure_cmp at 1.
+  destruct (eqk a item); [reflexivity|exact IH].
+Qed.
+
+Lemma distinct_from (key : A -> K) (eqk : K -> K -> bool) (xs : list A) t seen k :
+  exec_from (op_distinct (pure key) (pure_cmp eqk)) seen k (events xs t)
+  = nexts (distinct_list key eqk seen (indexed k xs)) ++ tterm (k + length xs) t.
+Proof.
+  revert seen k; induction xs as [|x r IH]; intros seen k.
+  - term_case t.
+  - step_cons. unfold pure at 1. rewrite hs_find_pure.
+    destruct (existsb (fun s => eqk s (key x)) seen); cbn -[exec_from]; rewrite IH;
+      now rewrite <- ?plus_n_Sm.
+Qed.
+
+Theorem distinct_spec (key : A -> K) (eqk : K -> K -> bool) (xs : list A) t :
+  exec (op_distinct (pure key) (pure_cmp eqk)) (events xs t)
+  = nexts (distinct_list key eqk [] (indexed 1 xs)) ++ tterm (S (length xs)) t.
+Proof. unfold exec. cbn -[exec_from]. apply distinct_from. Qed.
+End FactsMore.
+
+Section FactsFind.
+Context {A : Type}.
+
+(* find / find_index: the first element (with its index) satisfying the
+   predicate, emitted when it arrives; the "not found" value at completion *)
+Fixpoint first_match (p : A -> nat -> bool) (i : nat) (l : list (nat * A)) : option (nat * nat * A) :=
+  match l with
+  | [] => None
+  | (k, x) :: t => if p x i then Some (k, i, x) else first_match p (S i) t
+  end.
+
+Lemma find_from (p : A -> nat -> bool) yi (xs : list A) t i k :
+  exec_from (op_find (pure2 p) yi) i k (events xs t)
+  = match first_match p i (indexed k xs) with
+    | Some (j, idx, x) =>
+        [(j, Next (if yi then inr (Z.of_nat idx) else inl (Some x))); (j, Done)]
+    | None => match t with
+              | TDone => [((k + length xs)%nat, Next (if yi then inr (-1) else inl None));
+                          ((k + length xs)%nat, Done)]
+              | _ => tterm (k + length xs) t
+              end
+    end.
+Proof.
+  revert i k; induction xs as [|x r IH]; intros i k.
+  - destruct t; cbn; rewrite ?Nat.add_0_r; reflexivity.
+  - step_cons. unfold pure2. destruct (p x i); cbn -[exec_from].
+    + reflexivity.
+    + rewrite IH. rewrite <- ?plus_n_Sm. reflexivity.
+Qed.
+
+Theorem find_spec (p : A -> nat -> bool) yi (xs : list A) t :
+  exec (op_find (pure2 p) yi) (events xs t)
+  = match first_match p 0 (indexed 1 xs) with
+    | Some (j, idx, x) =>
+        [(j, Next (if yi then inr (Z.of_nat idx) else inl (Some x))); (j, Done)]
+    | None => match t with
+              | TDone => [(S (length xs), Next (if yi then inr (-1) else inl None)); (S (length xs), Done)]
+              | _ => tterm (S (length xs)) t
+              end
+    end.
+Proof. unfold exec. cbn -[exec_from]. apply find_from. Qed.
+
+(* skip_last: element j is emitted when element j + c arrives *)
+Lemma skip_last_from (c : nat) (xs : list A) t : forall (q : list A) k,
+  length q = c ->
+  exec_from (op_skip_last (Z.of_nat c)) q k (events xs t)
+  = nexts (combine (seq k (length xs)) (firstn (length xs) (q ++ xs))) ++ tterm (k + length xs) t.
+Proof.
+  induction xs as [|x r IH]; intros q k Hq.
+  - term_case t.
+  - step_cons. unfold zlen. rewrite app_length. cbn [length].
+    destruct (Z.gtb_spec (Z.of_nat (length q + 1)) (Z.of_nat c)) as [_|H]; [|lia].
+    destruct q as [|y q'].
+    + (* c = 0: the element itself is emitted *)
+      cbn [app tl firstn]. cbn -[exec_from]. rewrite IH by (cbn in *; lia).
+      cbn [length seq combine app firstn]. rewrite <- ?plus_n_Sm. reflexivity.
+    + cbn [app tl firstn]. cbn -[exec_from]. rewrite IH by (rewrite app_length; cbn in *; lia).
+      cbn [length seq combine app firstn]. rewrite <- app_assoc. cbn [app].
+      rewrite <- ?plus_n_Sm. reflexivity.
+Qed.
+
+Lemma skip_last_fill (c : nat) (xs : list A) t : forall (q : list A) k,
+  (length q + length xs <= c)%nat ->
+  exec_from (op_skip_last (Z.of_nat c)) q k (events xs t) = tterm (k + length xs) t.
+Proof.
+  induction xs as [|x r IH]; intros q k Hq.
+  - term_case t.
+  - step_cons. unfold zlen. rewrite app_length. cbn [length] in *.
+    destruct (Z.gtb_spec (Z.of_nat (length q + 1)) (Z.of_nat c)) as [H|_]; [lia|].
+    cbn -[exec_from]. rewrite IH by (rewrite app_length; cbn; lia).
+    rewrite <- ?plus_n_Sm. reflexivity.
+Qed.
+
+(* the first c inputs only fill the queue; from then on input j+c releases element j *)
+Theorem skip_last_spec_m (c : nat) (xs : list A) t :
+  exec (op_skip_last (Z.of_nat c)) (events xs t)
+  = nexts (combine (seq (1 + c) (length xs - c)) (firstn (length xs - c) xs))
+    ++ tterm (S (length xs)) t.
+Proof.
+  unfold exec. cbn -[exec_from].
+  destruct (Nat.le_gt_cases (length xs) c) as [Hle|Hgt].
+  - rewrite skip_last_fill by (cbn; lia). replace (length xs - c)%nat with 0%nat by lia. reflexivity.
+  - (* split xs into the first c elements (fill) and the rest *)
+    rewrite <- (firstn_skipn c xs) at 1. unfold events. rewrite map_app, <- app_assoc.
+    fold (events (skipn c xs) t).
+    assert (Fill : forall (pre : list A) (q : list A) k rest,
+      (length q + length pre <= c)%nat ->
+      exec_from (op_skip_last (Z.of_nat c)) q k (map Next pre ++ rest)
+      = exec_from (op_skip_last (Z.of_nat c)) (q ++ pre) (k + length pre) rest).
+    { induction pre as [|y pre IHp]; intros q k rest Hq.
+      - cbn. now rewrite app_nil_r, Nat.add_0_r.
+      - cbn [map app]. rewrite exec_from_cons. cbn -[exec_from]. unfold zlen. rewrite app_length. cbn [length] in *.
+        destruct (Z.gtb_spec (Z.of_nat (length q + 1)) (Z.of_nat c)) as [H|_]; [lia|].
+        cbn -[exec_from]. rewrite IHp by (rewrite app_length; cbn; lia).
+        rewrite <- app_assoc. cbn [app]. rewrite <- ?plus_n_Sm. reflexivity. }
+    rewrite Fill by (cbn; rewrite firstn_length; lia). cbn [app].
+    rewrite firstn_length, Nat.min_l by lia.
+    rewrite skip_last_from by (rewrite firstn_length; lia).
+    rewrite skipn_length. rewrite (firstn_skipn c xs).
+    replace (1 + c + (length xs - c))%nat with (S (length xs)) by lia. reflexivity.
+Qed.
+End FactsFind.
